@@ -121,6 +121,13 @@ def check(replay=None):
                     off = rng.randrange(0, 2000)
                     cases.append({"target": target, "file_index": rng.randrange(8),
                                   "dmgs": [{"kind": rng.choice(["flip", "over"] + (["trunc"] if target == "sst" else [])), "off": off, "len": off, "bit": rng.randrange(8), "byte": rng.randrange(257)}]})
+            # every byte of the unchecksummed final block and trailer of two ssts, a few values each
+            for fi in (0, rng.randrange(1, 8)):
+                for rk in ("final", "trailer"):
+                    for k in range(0, 110):
+                        for byte in (rng.choice([0, 255]), rng.randrange(256)):
+                            cases.append({"target": "sst", "file_index": fi, "dmgs": [{"kind": "over", "rkind": rk, "which": "first", "pos_index": k, "byte": byte}]})
+                        cases.append({"target": "sst", "file_index": fi, "dmgs": [{"kind": "flip", "rkind": rk, "which": "first", "pos_index": k, "bit": rng.randrange(8)}]})
             for fill in ("zero", "random"):
                 cases.append({"target": "sst", "file_index": rng.randrange(8), "dmgs": [{"kind": "extend", "n": rng.choice([1, 8, 64]), "fill": fill}]})
             docs.append({"file": "store", "build": sb, "seed": rng.randrange(1, 1 << 30), "cases": cases})
@@ -137,12 +144,18 @@ def check(replay=None):
         if x.get("crashed"):
             continue
         tp = os.path.join(wd, f"dmg{i}.ndjson")
-        tr = run_tlc("Trace_Damage", cfg_text(spec="TraceSpec", postcondition="TraceAccepted"), wd, f"tdmg{i}", workers=1, timeout=1800, dfs=True, heap="4g",
+        tr = run_tlc("Trace_Damage", cfg_text(spec="TraceSpec", constants={"Dev": set(vlib.open_deviations({PROP}))}, postcondition="TraceAccepted"), wd, f"tdmg{i}", workers=1, timeout=1800, dfs=True, heap="4g",
                      env_extra={"TRACE": tp})
         text = open(tr.out, errors="replace").read()
         lines = open(tp).read().splitlines()
         out.states += tr.distinct
         out.transitions += tr.generated
+        for dname in set(re.findall(r'"DEV-USED",\s*"([^"]+)"', text)):
+            for k in vlib.load_known():
+                if k["status"] == "open" and k.get("deviation") == dname and k["property"] == PROP:
+                    ln = re.search(r'"DEV-USED",\s*"' + dname + r'",\s*"line",\s*(\d+)', text)
+                    ex = json.loads(lines[int(ln.group(1)) - 1]) if ln else {}
+                    out.known(k["id"], f"{dname}: {k['what'][:160]}: e.g. {json.dumps(ex.get('dmgs', [{}])[0])[:160]}")
         m = re.search(r'"matched", (\d+), "of", (\d+)', text)
         if m or tr.distinct < len(lines) + 1:
             if tr.error and not m:
